@@ -11,7 +11,8 @@ from ..gens import EPS, OPTIONS, PRIMARIES, STOCKS, build_primary, fl, primary_s
 PROPERTY_ID = "C13"
 ASSUMPTIONS = [
     "T = ceil(r)+1 with r the exact rational ratio of the two floats maturity and dt; when |r-k| <= 8 ulp(k) for an "
-    "integer k, k+1 is accepted as well (the statement's rounding clause)",
+    "integer k, exactly k+1 points are required (the statement's rounding clause; the k+2 points the original tree gave when "
+    "the float quotient landed above k were repaired in /repo, F17)",
     "time_to_maturity compared with (T-1-i)*dt at 4*eps(dtype)*(T-1)*dt absolute",
     "grids are kept at <= 80 points so that every simulator stays cheap",
 ]
@@ -61,12 +62,19 @@ def grid_case(draw):
 
 
 def expected_T(maturity: float, dt: float):
+    """-> (T of the exact ratio, admissible T, exact ratio). Within 8 ulps of an integer k (either side): k+1 points and
+    nothing else (the statement's rounding clause); clearly off the grid: ceil(r)+1; in the band between 8 ulps and 1e-8
+    (neither; not generated) both."""
     r = Fr(maturity) / Fr(dt)
     exact = math.ceil(r) + 1
-    ok = {exact}
     k = round(r)
-    if k >= 1 and abs(r - k) <= Fr(8 * 2.0 ** -52) * k:
-        ok.add(k + 1)
+    gap = abs(r - k)
+    if k >= 1 and gap <= Fr(8 * 2.0 ** -52) * k:
+        ok = {k + 1}
+    elif gap <= Fr(1, 10 ** 8):
+        ok = {exact, k + 1}
+    else:
+        ok = {exact}
     return exact, ok, r
 
 
@@ -119,7 +127,7 @@ def check_grid(case, ctx):
     borderline = False
     for j, u in enumerate(uls):
         exact, ok, r = expected_T(M, u.dt)
-        borderline = borderline or len(ok) > 1
+        borderline = borderline or exact not in ok or abs(r - round(r)) <= Fr(8 * 2.0 ** -52) * max(round(r), 1)
         for name, buf in u.named_buffers():
             if not ctx.check(buf.dim() == 2 and buf.shape[0] == case["n_paths"] and buf.shape[1] in ok,
                              "C13/n-steps", f"underlier {j} ({type(u).__name__}) buffer '{name}' has shape {tuple(buf.shape)}; "
